@@ -167,16 +167,25 @@ def wait_progress(pred, progress, idle=60.0, cap=900.0, step=0.05):
     makes a run slow, not stuck: a fixed time-out would report slowness as a failure."""
     t0 = last_t = time.time()
     last = progress()
-    while time.time() - t0 < cap:
+    while time.time() - t0 < cap * load_factor():
         if pred():
             return True
         now = progress()
         if now != last:
             last, last_t = now, time.time()
-        elif time.time() - last_t > idle:
+        elif time.time() - last_t > idle * load_factor():
             break
         time.sleep(step)
     return pred()
+
+
+def load_factor():
+    """How much longer than on an idle machine things may take right now: the 1-minute load average per core,
+    never below 1 (with 80 runnable processes on 16 cores a quiet 60 s is no sign of a stuck daemon)."""
+    try:
+        return max(1.0, os.getloadavg()[0] / (os.cpu_count() or 1))
+    except OSError:
+        return 1.0
 
 
 def post_ops(log_path, cert_name=None):
